@@ -12,6 +12,24 @@ NEEDS = {
  "C07-B": ("C07", "en-passant key table loop excludes the a-file (exclusive bound)", "an a-pawn double step vs. the twin position without e.p. target (clause 2: distinct positions collide)"),
  "C03-A": ("C03", "same-sign mate comparison rewritten on MateDistance(): losing mates inverted", "a forced mate where the defender can choose between lines of different length, depth >= 5"),
  "C03-B": ("C03", "stand-pat beta cut-off before looking for a legal move in quiescence", "quiescence leaf, mate/stalemate exactly at the horizon under a narrowed window"),
+ "C12-A": ("C12", "table-write guards test a 'halted' flag set only at alpha-beta node entry instead of polling the context", "quiescence leaf + table + a halt landing at a poll INSIDE a leaf's quiescence search (2 of 1424 polls in the demo)"),
+ "C12-B": ("C12", "Minimax breaks out of the move loop when cancelled, then adjudicates 'no legal move'", "a halt between the root's entry poll and its first legal move (1 poll per search; more when the root is in check)"),
+ "C14-A": ("C14", "printCastling rewritten with a copy-paste slip: 'q' written iff Black has the king-side right", "Black holds exactly one of its two castling rights"),
+ "C14-B": ("C14", "half-move clock reset condition rewritten as a list that misses the EnPassant move type", "a game history containing an en-passant capture, FEN read before the next pawn move/capture"),
+ "C15-A": ("C15", "init.Close() hoisted in front of the first root.Search: Halt no longer waits for depth 1", "a halt requested while depth 1 is still being searched"),
+ "C15-B": ("C15", "Limits uses Moves instead of Moves+1", "exactly 'movestogo 1' with a non-zero clock (hard limit = 1.5 x clock)"),
+ "C17-A": ("C17", "a same-hash store refreshes the published node in place instead of CAS-ing a new one", "two goroutines on the same hash at the same moment (torn tuple, data race)"),
+ "C17-B": ("C17", "replacement-value test hoisted out of the CAS retry loop", "writer L loads and passes the test, writer H stores, L's CAS fails, L reloads and overwrites the higher-valued entry"),
+ "C10-A": ("C10", "ucinewgame resets the engine but no longer clears lastPosition", "position P; ucinewgame; position P (verbatim or extended), P not bare startpos"),
+ "C10-B": ("C10", "FEN en-passant square dropped by a shadowed variable in Decode", "a 'position fen' whose en-passant field is not '-'"),
+ "C16-A": ("C16", "forwarder closes its done channel before calling searchCompleted", "a non-infinite search superseded while its forwarder sits between 'channel closed' and its CAS on 'active'"),
+ "C16-B": ("C16", "Engine.Halt waits outside the lock and clears e.active unconditionally afterwards (ported to the tree with lock hooks)", "the movetime timer is inside Engine.Halt while the loop supersedes search 1 and launches search 2: search 2 is orphaned, the driver later blocks for ever"),
+ "C04-A": ("C04", "ensureInactive returns early when Halt finds no active search (skips the wait for the forwarder)", "a go ended by stop/movetime whose forwarder is delayed past the next position+go"),
+ "C04-B": ("C04", "the root clears only Repetition3/NoProgress draws, not Repetition5/InsufficientMaterial", "a game history (position ... moves ...) ending in insufficient material or a five-fold repetition, then go"),
+ "C18-A": ("C18", "Engine.Halt clears e.active under the lock but waits for the search outside it (ported to the tree with lock hooks)", "one engine driven from two goroutines: Analyze accepted while the halted search still unwinds (shared noise/evaluator state)"),
+ "C18-B": ("C18", "SARGON Points.Reset cached by root hash", "two consecutive searches on one engine from equal-hash roots with different history, depth >= 2"),
+ "C11-A": ("C11", "table write guarded by alpha <= beta instead of alpha < beta: a score landing exactly on beta stored as exact", "a tie with beta at a node whose true value is higher, reached again under another window (sequences of searches on one table)"),
+ "C11-B": ("C11", "the '!IsCancelled' guard of the leaf table write dropped", "quiescence leaf + a halt during a leaf's quiescence search + a later search sharing the table"),
 }
 def main():
     rows=[]
